@@ -81,6 +81,8 @@ type Case struct {
 	// SettleMs: after the callers are done, wait (without any further input)
 	// until every accepted message was seen in a produce request, at most this long.
 	SettleMs int `json:"settle_ms,omitempty"`
+	// LoggerDelayUs > 0: the Writer gets a Logger that takes this long per line (user callbacks are part of the schedule).
+	LoggerDelayUs int `json:"logger_delay_us,omitempty"`
 	// StrictLateMs (oracle hint used by C08's steady-stream stratum): >0 = the broker is healthy and batches tiny, a
 	// message reaching the broker more than BatchTimeout + this many ms after it was accepted is a violation.
 	StrictLateMs int `json:"strict_late_ms,omitempty"`
@@ -352,6 +354,11 @@ func Run(c Case) *Result {
 	wt := time.Duration(c.WriteTimeoutMs) * time.Millisecond
 	tr := &kafka.Transport{Dial: nw.Dial, MetadataTTL: 30 * time.Millisecond, DialTimeout: 2 * time.Second, IdleTimeout: 5 * time.Second, ClientID: "wsim"}
 	bal := &recordingBalancer{inner: makeBalancer(c.Balancer), res: res}
+	var slowLogger kafka.Logger
+	if c.LoggerDelayUs > 0 {
+		d := time.Duration(c.LoggerDelayUs) * time.Microsecond
+		slowLogger = kafka.LoggerFunc(func(string, ...interface{}) { time.Sleep(d) })
+	}
 	w := &kafka.Writer{
 		Addr: kafka.TCP("b1.fake:9092"), Transport: tr, Balancer: bal,
 		BatchSize: c.BatchSize, BatchBytes: c.BatchBytes, BatchTimeout: time.Duration(c.BatchTimeoutMs) * time.Millisecond,
@@ -361,6 +368,9 @@ func Run(c Case) *Result {
 	}
 	if c.WriterTopic {
 		w.Topic = c.Topics[0]
+	}
+	if slowLogger != nil {
+		w.Logger = slowLogger
 	}
 	var cmu sync.Mutex
 	w.Completion = func(msgs []kafka.Message, err error) {
